@@ -28,15 +28,25 @@ fn observe(m: &mut llguidance::Matcher) -> String {
 
 pub fn session(rng: &mut Rng, out: &mut Out, with_rollback: bool, prop: &str, script: Option<ParsedSession>) {
     let scripted = script.is_some();
+    // `ext`: implementation-only sessions — the grammar gets an %ignore lexeme (not modelled) and the
+    // multi-byte tokens are cut out of strings of the grammar, some with a leading blank, so that the
+    // token walk crosses skipped lexemes
+    let mut ext = false;
     let (g, ws, eos, script_ops) = match script {
         Some(p) => (p.gram, p.ws, p.eos, p.ops),
         None => {
             let g = if rng.chance(1, 8) { gen_diamond_gram(rng) } else { gen_gram(rng) };
-            let (ws, eos) = if rng.chance(1, 6) { single_byte_vocab() } else { gen_engine_vocab(rng, 30) };
+            ext = rng.chance(1, 4);
+            let dv = if ext { derived_vocab(rng, &format!("{}%ignore /[ ]+/\n", g.to_lark()), 40, true) } else { None };
+            ext = dv.is_some();
+            let (ws, eos) = match dv {
+                Some(v) => v,
+                None => if rng.chance(1, 6) { single_byte_vocab() } else { gen_engine_vocab(rng, 30) },
+            };
             (g, ws, eos, vec![])
         }
     };
-    let lark = g.to_lark();
+    let lark = if ext { format!("{}%ignore /[ ]+/\n", g.to_lark()) } else { g.to_lark() };
     let env = make_env(&ws, eos, false);
     let Ok(mut m) = new_matcher(&env, &lark, &[]) else {
         out.count("grammar_rejected", 1);
@@ -95,6 +105,12 @@ pub fn session(rng: &mut Rng, out: &mut Out, with_rollback: bool, prop: &str, sc
                     let mi = m_inv.compute_mask().ok().map(|v| mask_list(&v));
                     if mi != mask {
                         viol.push(format!("mask differs from the mask of an engine whose cache is invalidated first, after {:?}: {:?} vs {:?}", hist, mask, mi));
+                    }
+                    // (a') the walk itself leaves no trace: invalidate and walk again in the same state
+                    m_inv.invalidate_bias_cache();
+                    let mi2 = m_inv.compute_mask().ok().map(|v| mask_list(&v));
+                    if mi2 != mask {
+                        viol.push(format!("mask differs when the cache is invalidated and the mask computed a second time in the same state, after {:?}: {:?} vs {:?}", hist, mask, mi2));
                     }
                     // (b) fresh engine replaying the surviving commits
                     if let Some(mut f) = fresh_replay(&env, &lark, &hist) {
@@ -200,6 +216,12 @@ pub fn session(rng: &mut Rng, out: &mut Out, with_rollback: bool, prop: &str, sc
     out.count(&format!("{prop}_sessions"), 1);
     out.count("ops", ops.len() as u64);
     out.count("rollbacks_or_resets", n_rollbacks);
+    if ext {
+        // skip lexemes are outside the modelled fragment: the three-engine comparison above is the check
+        out.count("sessions_with_ignore_lexeme", 1);
+        out.case(tagged("noop", vec![int(ops.len())]), tagged("noop", vec![int(ops.len())]), ops.len() > 6);
+        return;
+    }
     out.case(input, tagged("session", results), ops.len() > 6);
 }
 
